@@ -59,6 +59,8 @@ structure Target where
   kind : MKind
   base : Int            -- the original returns base + numbers of its arguments
   pa : Bool             -- (*node, interface{}) → (*node, interface{}) shape
+  name : String := "probe-target"
+  loggerCalls : Bool := false
 
 def recvK : List Kind := [.ptr]
 
@@ -69,6 +71,8 @@ def target (t : String) : Option Target :=
   | "fm" => some { sig := { params := [.str], velem := some .int, nOut := 1, isMethod := false }, kind := .patch, base := 3000, pa := false }
   | "fp" => some { sig := { params := [.ptr, .iface], velem := none, nOut := 2, isMethod := false }, kind := .patch, base := 0, pa := true }
   | "fa" => some { sig := { params := [.iface], velem := none, nOut := 1, isMethod := false }, kind := .patch, base := 6000, pa := false }
+  | "it" => some { sig := { params := [.int], velem := none, nOut := 1, isMethod := false }, kind := .patch, base := 0, pa := false,
+                   name := "strconv.Itoa", loggerCalls := true }
   | "ms" => some { sig := { params := recvK ++ [.int, .str], velem := none, nOut := 1, isMethod := true }, kind := .patch, base := 4000, pa := false }
   | "mv" => some { sig := { params := recvK ++ [.str], velem := some .int, nOut := 1, isMethod := true }, kind := .patch, base := 5000, pa := false }
   | "ia" => some { sig := { params := recvK ++ [.int, .str], velem := none, nOut := 1, isMethod := true }, kind := .iface, base := 7000, pa := false }
@@ -164,7 +168,7 @@ def origOf (tg : Target) (a : List Val) : List Val :=
   else [intVal (tg.base + sumV a)]
 
 def envOf (tg : Target) : Env :=
-  { sig := tg.sig, kind := tg.kind, name := "probe-target", render := renderDrv, orig := origOf tg }
+  { sig := tg.sig, kind := tg.kind, name := tg.name, render := renderDrv, orig := origOf tg, loggerCalls := tg.loggerCalls }
 
 def bits (ws : List Bool) : String :=
   if ws.isEmpty then "-" else String.ofList (ws.map (fun b => if b then '1' else '0'))
